@@ -10,7 +10,9 @@ Decided (finite-case evaluation of the MIR decision tables, A10):
  * is-open        : every path of `PriceFeedPrice::is_market_open` is evaluated against the decision list of the
                     property (Closed => false; no Open flag => false; tracking disabled => true;
                     now (-) ts > timeout => false; else last_update_diff_secs <= timeout (-) (now (-) ts)), for every
-                    completion of the conditions the path does not test; operands are identified by provenance
+                    completion of the conditions the path does not test — obligations are keyed by the SEMANTIC CASE
+                    (status-closed, open-flag-unset, tracking-disabled, report-too-old, freshness-compare), so merged /
+                    split / reordered guards and boolean carrier locals do not matter; operands are identified by provenance
                     (parameter position, `self.ts`, accessor results), comparison strictness is checked;
  * no-raw-arith   : is_market_open / last_update_diff_secs contain no raw `+ - *`, no lossy cast; only
                     `saturating_sub`, lossless `From<u32> for i64` conversions, comparisons;
@@ -190,46 +192,52 @@ def _is_open(ctx, prog):
     secs = "PriceFeedPrice::last_update_diff_secs(self)@Some.0"
     final = ("<=", secs, "i64::saturating_sub(%s, %s)" % (timeout, cur_diff))
 
-    def spec(C, O, N, G):
-        if C:
-            return "false"
-        if not O:
-            return "false"
-        if N:
-            return "true"
-        if G:
-            return "false"
-        return "CMP"
+    CASES = {"status-closed": "false", "open-flag-unset": "false", "tracking-disabled": "true", "report-too-old": "false",
+             "freshness-compare": "CMP"}
 
-    n = 0
+    def case_of(C, O, N, G):
+        if C:
+            return "status-closed"
+        if not O:
+            return "open-flag-unset"
+        if N:
+            return "tracking-disabled"
+        if G:
+            return "report-too-old"
+        return "freshness-compare"
+
+    # Truth table over the decision atoms, independent of how the guards are merged, split or ordered: every path (with
+    # boolean carrier locals resolved, see h_E.norm_paths) is classified by the atoms it tests; for every completion of the
+    # atoms it does not test, the property's case and outcome are computed and compared with what the path returns.
+    from ..h_E import norm_paths
+    paths = norm_paths(f)
+    mism = {k: [] for k in CASES}
+    cover = {k: 0 for k in CASES}
+    shape = []
     kinds = set()
-    for p in A.decision_table(f):
-        if not A.feasible(p) or p["diverges"]:
-            continue
-        n += 1
+    for p in paths:
         asg = {}
         bad = []
-        for c, l, t in p["conds"]:
+        for c, l, is_bool in p["conds"]:
             s = str(c)
             if s == openness:
                 if isinstance(l, tuple):
-                    asg["C"] = False if closed in l[1] else None
-                    if asg["C"] is None:
+                    if closed in l[1]:
+                        asg["C"] = False
+                    else:
                         bad.append("openness otherwise-edge does not exclude Closed")
                 else:
                     asg["C"] = (l == closed)
-            elif s == openflag:
-                asg["O"] = (l != 0) if not isinstance(l, tuple) else True
+            elif s == openflag and is_bool:
+                asg["O"] = l
             elif s == diffopt:
-                # Option: None = 0, Some = 1
-                asg["N"] = (l == 0) if not isinstance(l, tuple) else (1 in l[1])
+                asg["N"] = (l == 0) if not isinstance(l, tuple) else (1 in l[1])       # Option: None = 0, Some = 1
             else:
-                cm = A.as_cmp(c)
-                truth = (l != 0) if not isinstance(l, tuple) else True
+                cm = A.as_cmp(c) if is_bool else None
                 ok = False
                 if cm:
                     o, a, b = cm
-                    if not truth:
+                    if not l:
                         o = A.NEG[o]
                     if str(a) == timeout and str(b) == cur_diff:
                         o, a, b = A.FLIP[o], b, a
@@ -243,25 +251,39 @@ def _is_open(ctx, prog):
         if rs in ("true", "false"):
             got = rs
         else:
-            cm = A.as_cmp(r) if r is not None else None
+            neg = False
+            e = r
+            while e is not None and e.k == "un" and e.a[0] == "Not":
+                e = e.a[1]
+                neg = not neg
+            cm = A.as_cmp(e) if e is not None else None
             got = "?"
             if cm:
                 o, a, b = cm
+                if neg:
+                    o = A.NEG[o]
                 if (o, str(a), str(b)) == final or (A.FLIP[o], str(b), str(a)) == final:
                     got = "CMP"
-        outcomes = set()
+        kinds.add(got)
+        if bad:
+            shape += bad
         for C in ([asg["C"]] if "C" in asg else [True, False]):
             for O in ([asg["O"]] if "O" in asg else [True, False]):
                 for N in ([asg["N"]] if "N" in asg else [True, False]):
                     for G in ([asg["G"]] if "G" in asg else [True, False]):
-                        outcomes.add(spec(C, O, N, G))
-        kinds.add(got)
-        key = ",".join("%s=%s" % (k, int(bool(v))) for k, v in sorted(asg.items())) or "entry"
-        ctx.ob("is-open:path:%s" % key, not bad and outcomes == {got},
-               "path [%s] returns %s; decision list of the property gives %s%s" % (
-                   key, got if got != "?" else rs[:120], sorted(outcomes), "; " + "; ".join(bad) if bad else ""),
-               where=f.where(), detail={"ret": rs[:200]})
-    ctx.floor("is-open:paths", n, 5)
+                        cs_ = case_of(C, O, N, G)
+                        cover[cs_] += 1
+                        if got != CASES[cs_]:
+                            mism[cs_].append("path testing {%s} returns %s" % (
+                                ",".join("%s=%d" % (k, int(bool(v))) for k, v in sorted(asg.items())), got if got != "?" else rs[:100]))
+    ctx.ob("is-open:shape", not shape, "every branch condition of is_market_open is one of the decision atoms (status closed, Open flag, "
+           "tracking enabled, report age > timeout)%s" % ("; UNRECOGNISED: %s" % shape[:3] if shape else ""), where=f.where(), nontrivial=False)
+    for cs_, want in CASES.items():
+        ctx.ob("is-open:case:%s" % cs_, not mism[cs_] and cover[cs_] > 0,
+               "case %s must yield %s: %d (path, completion) pairs fall into it%s" % (
+                   cs_, "the freshness comparison last_update_diff_secs <= timeout (-) (now (-) ts)" if want == "CMP" else want, cover[cs_],
+                   "; MISMATCH: %s" % sorted(set(mism[cs_]))[:3] if mism[cs_] else ""), where=f.where())
+    ctx.floor("is-open:paths", len(paths), 5)
     ctx.ob("is-open:all-outcomes", kinds >= {"true", "false", "CMP"}, "is_market_open has true, false and freshness-comparison outcomes: %s" % sorted(kinds),
            where=f.where())
     # conversions are lossless, arithmetic only saturating
@@ -291,40 +313,35 @@ def _diff_secs(ctx, prog):
     ctx.ob("diff-secs:nanos-per-second", int(c["int"]) == 10 ** 9, "NANOS_PER_SECOND_U32 = %s" % c["int"], where="%s:%d" % (c["file"], c["line"]))
     en = "PriceFlagContainer::get_flag(self.flags, PriceFlag::LastUpdateDiffEnabled{})"
     sc = "PriceFlagContainer::get_flag(self.flags, PriceFlag::LastUpdateDiffSecs{})"
-    n = 0
-    for p in A.decision_table(f):
-        if not A.feasible(p) or p["diverges"]:
-            continue
-        n += 1
+    from ..h_E import norm_paths
+    WANT = {"disabled": "Option::None{}", "seconds": "Option::Some{0: self.last_update_diff}",
+            "nanoseconds": "Option::Some{0: u32::div_ceil(self.last_update_diff, feed_price::NANOS_PER_SECOND_U32)}"}
+    mism = {k: [] for k in WANT}
+    cover = {k: 0 for k in WANT}
+    shape = []
+    paths = norm_paths(f)
+    for p in paths:
         asg = {}
-        bad = []
-        for cnd, l, t in p["conds"]:
-            v = (l != 0) if not isinstance(l, tuple) else True
-            neg = False
-            e = cnd
-            while e.k == "un" and e.a[0] == "Not":
-                e = e.a[1]
-                neg = not neg
-            if str(e) == en:
-                asg["enabled"] = (v != neg)
-            elif str(e) == sc:
-                asg["secs"] = (v != neg)
+        for cnd, l, is_bool in p["conds"]:
+            if is_bool and str(cnd) == en:
+                asg["enabled"] = l
+            elif is_bool and str(cnd) == sc:
+                asg["secs"] = l
             else:
-                bad.append(str(cnd)[:80])
+                shape.append(str(cnd)[:80])
         r = str(p["ret"])
-        outs = set()
         for E in ([asg["enabled"]] if "enabled" in asg else [True, False]):
             for S in ([asg["secs"]] if "secs" in asg else [True, False]):
-                if not E:
-                    outs.add("Option::None{}")
-                elif S:
-                    outs.add("Option::Some{0: self.last_update_diff}")
-                else:
-                    outs.add("Option::Some{0: u32::div_ceil(self.last_update_diff, feed_price::NANOS_PER_SECOND_U32)}")
-        key = ",".join("%s=%d" % (k, v) for k, v in sorted(asg.items())) or "entry"
-        ctx.ob("diff-secs:path:" + key, not bad and outs == {r}, "path [%s] returns %s; specified %s%s" % (
-            key, r, sorted(outs), "; unrecognised %s" % bad if bad else ""), where=f.where())
-    ctx.floor("diff-secs:paths", n, 3)
+                case = "disabled" if not E else ("seconds" if S else "nanoseconds")
+                cover[case] += 1
+                if r != WANT[case]:
+                    mism[case].append("path testing %s returns %s" % (asg, r[:90]))
+    ctx.ob("diff-secs:shape", not shape, "last_update_diff_secs branches only on the two tracking flags%s" % ("; UNRECOGNISED %s" % shape[:3] if shape else ""),
+           where=f.where(), nontrivial=False)
+    for case, want in WANT.items():
+        ctx.ob("diff-secs:case:" + case, not mism[case] and cover[case] > 0, "case %s yields %s (%d path/completion pairs)%s" % (
+            case, want, cover[case], "; MISMATCH %s" % mism[case][:2] if mism[case] else ""), where=f.where())
+    ctx.floor("diff-secs:paths", len(paths), 3)
 
 
 def run(ctx):
